@@ -72,6 +72,11 @@ def probe_suite():
     add('verdict.matrix.nonegpow', lambda: m.MatrixGrader(
         answers='A', variables=['A'], max_array_dim=2, negative_powers=False,
         sample_from={'A': m.RealMatrices(shape=[2, 2])})(None, 'A^-1*A*A'))
+    # the same name-free strings the matrix tenants submit: a grader with negative powers
+    # disabled must refuse them whatever was evaluated before
+    for lit in ('[[2,0],[0,4]]^-1', '[[2,0],[0,4]]^-1*[1,1]', '[[1,2],[3,4]]^-2'):
+        add('negpow.literal.' + lit, lambda lit=lit: m.MatrixGrader(
+            answers='[[1,0],[0,1]]', negative_powers=False, max_array_dim=2)(None, lit))
     add('verdict.string', lambda: m.StringGrader(answers='cat')(None, 'Cat'))
     add('verdict.interval', lambda: m.IntervalGrader(answers='[1,2)')(None, '[1,2)'))
     add('verdict.constants', lambda: m.FormulaGrader(answers='e^(i*pi)')(None, '-1'))
